@@ -3,8 +3,8 @@
    andb/orb are inlined; nat, N, Z, positive stay the extracted inductive types. *)
 Require Extraction.
 Require Import ExtrOcamlBasic.
-From Jbk Require Import Views.Region Base.Bytes Base.Crc Base.Parser Format.Structs Manifest.SetLocation Content.Cluster Content.Pack Content.Model Conc.ClusterWriter Conc.SyncVec Crash.AtomicFs Dir.Layout Dir.DirModel Dir.Search Container.Reader.
+From Jbk Require Import Views.Region Base.Bytes Base.Crc Base.Parser Format.Structs Manifest.SetLocation Content.Cluster Content.Pack Content.Model Conc.ClusterWriter Conc.SyncVec Crash.AtomicFs Dir.Layout Dir.DirModel Dir.Search Container.Reader Container.Canon.
 
 Extraction "model.ml" Region.run Region.of_region Region.arun Region.abs
   SetLocation.set_location SetLocation.manifest_infos SetLocation.manifest_view SetLocation.layout_okb Crc.crc_bytes Bytes.needed_bytes
-  Model.plan_plain Model.plan_dedup Model.cp_read_many ClusterWriter.accepts SyncVec.sv_accepts SyncVec.sv_first_reject SyncVec.execs SyncVec.ainit AtomicFs.fs_accepts AtomicFs.crash_states AtomicFs.wf_from AtomicFs.entry_lastb DirModel.dp_dump Search.find_table Reader.container_open Reader.container_open_lenient Reader.container_dir_dump Reader.get_content Reader.open_as_container Reader.file_ranges.
+  Model.plan_plain Model.plan_dedup Model.cp_read_many ClusterWriter.accepts SyncVec.sv_accepts SyncVec.sv_first_reject SyncVec.execs SyncVec.ainit AtomicFs.fs_accepts AtomicFs.crash_states AtomicFs.wf_from AtomicFs.entry_lastb DirModel.dp_dump Search.find_table Reader.container_open Reader.container_open_lenient Reader.container_dir_dump Reader.get_content Reader.open_as_container Reader.file_ranges Canon.canon_file.
